@@ -22,7 +22,7 @@ RULE = ("images with dims 1..12, 1..5 components, all number types, created with
 BUDGET = {"quick": {"shards": 8, "cases": 600}, "thorough": {"shards": 16, "cases": 5000}}
 MIN_NT = {"quick": 1500, "thorough": 20000}
 ASSUMPTIONS = ["write/read regions lie inside the image (the GR interface does not bound-check regions)",
-               "compressed non-chunked images are written as whole images", "JPEG/IMCOMP excluded (lossy)"]
+               "compressed non-chunked images are written as whole images, except that the first write of a new one may be a region", "JPEG/IMCOMP excluded (lossy)"]
 NT_LABELS = {"interlace_nd", "partial_fill", "special_storage"}
 PIXEL, LINE, COMP = 0, 1, 2
 
@@ -114,7 +114,11 @@ def strategy_(draw, tier):
                 ops.append(["rchunk", draw(st.integers(0, 20)), draw(st.integers(0, 20)),
                             draw(st.sampled_from([PIXEL, PIXEL, LINE, COMP]))])
         elif c < 35:
-            if storage in ("comp", "rle8"):
+            if storage == "comp" and not any(o[0] == "write" for o in ops) and draw(st.integers(0, 2)) == 0:
+                # the FIRST write of a new compressed image may be a region: fill values around it
+                s, sd, cn = draw_region(draw, W, H)
+                ops.append(["write", s, sd, cn, draw(st.integers(0, 99))])
+            elif storage in ("comp", "rle8"):
                 ops.append(["write", [0, 0], None, [W, H], draw(st.integers(0, 99))])
             else:
                 s, sd, cn = draw_region(draw, W, H)
